@@ -65,6 +65,12 @@ def step (s : St) : List String → St × String
             let cur := if fee > 0 then s.cfg.feeCur else s.cfg.symbol
             (s, s!"{fee}/{cur}/{fa}")
     | none => (s, "bad-op")
+  | ["price", r, a] => match nat? r, nat? a with
+    | some r, some a => (s, toString (calcPrice ⟨"", "", r, 0, 0⟩ a))
+    | _, _ => (s, "bad-op")
+  | ["inlimit", mn, mx, a] => match nat? mn, nat? mx, nat? a with
+    | some mn, some mx, some a => (s, if inLimit ⟨"", "", 0, mn, mx⟩ a then "yes" else "no")
+    | _, _, _ => (s, "bad-op")
   | ["bal"] =>
     (s, ",".intercalate (names.map (fun n => s!"{n}={s.tok n}/" ++ "/".intercalate (curs.map (fun c => toString (s.alw n c))))))
   | _ => (s, "bad-op")
@@ -75,6 +81,8 @@ def clause : List String → String
   | "transfer" :: _ => "transfer_effect"
   | "bal" :: _ => "balances_exact"
   | "predict" :: _ | "feetransfer" :: _ => "fee_formula"
+  | "price" :: _ => "price_exact"
+  | "inlimit" :: _ => "limits"
   | "buy" :: _ => "buy_effect"
   | "buyback" :: _ => "buyBack_effect"
   | "setfee" :: _ | "setrate" :: _ | "setlimits" :: _ | "delrate" :: _ => "setter_validation"
